@@ -382,7 +382,11 @@ impl ConstAsImmediateLibfunc {
                 vec![],
                 vec![OutputVarInfo {
                     ty: ty.clone(),
-                    ref_info: OutputVarReferenceInfo::Deferred(DeferredOutputKind::Const),
+                    ref_info: if context.get_type_info(ty)?.zero_sized {
+                        OutputVarReferenceInfo::ZeroSized
+                    } else {
+                        OutputVarReferenceInfo::Deferred(DeferredOutputKind::Const)
+                    },
                 }],
                 SierraApChange::Known { new_vars_only: true },
             ),
